@@ -450,12 +450,12 @@ theorem claimVested_claimed {t t' : Tx} {e : Env} (h : claimVested t e = .ok t')
 
 /-! ### distribution step and NFT draw -/
 
-theorem leftoverBody_tx_s (hash : List Nat → List Nat) (v2 : Bool) (nrOrig last : Nat) (s0 : State)
+theorem g_leftoverBody_tx_s (hash : List Nat → List Nat) (v2 : Bool) (nrOrig last : Nat) (s0 : State)
     (x x' : LSt) (c : Bool) (h : leftoverBody hash v2 nrOrig last x = .ok (x', c))
     (hx : x.tx.s = s0) : x'.tx.s = s0 := by
   unfold leftoverBody at h
   simp only at h
-  have hd := Tx.draw_s hash x.tx x.rng
+  have hd := Tx.g_draw_s hash x.tx x.rng
   repeat' (first | split at h | simp only at h)
   all_goals first
     | (cases h; done)
@@ -467,11 +467,11 @@ theorem leftoverBody_tx_s (hash : List Nat → List Nat) (v2 : Bool) (nrOrig las
          | (rw [← hx]; exact hd)
          | (simp only []; split <;> (first | exact hx | (rw [← hx]; exact hd))))
 
-theorem nftBody_tx_s (hash : List Nat → List Nat) (total : Nat) (s0 : State)
+theorem g_nftBody_tx_s (hash : List Nat → List Nat) (total : Nat) (s0 : State)
     (x x' : NSt) (c : Bool) (h : nftBody hash total x = .ok (x', c))
     (hx : x.tx.s = s0) : x'.tx.s = s0 := by
   unfold nftBody at h
-  have hd := Tx.draw_s hash x.tx x.rng
+  have hd := Tx.g_draw_s hash x.tx x.rng
   split at h
   · cases h; exact hx
   · simp only at h
@@ -487,7 +487,7 @@ theorem nftSubstep_claimed {hash : List Nat → List Nat} {t t' : Tx} {rng rng' 
   obtain ⟨x, b, st0, hrun, hrest⟩ := h
   have hx : x.tx.s = t.s :=
     runWhile_keeps (fun y : NSt => y.tx.s = t.s) _
-      (fun y y' c hb hy => nftBody_tx_s hash _ t.s y y' c hb hy) _ _ _ _ _ _ hrun rfl
+      (fun y y' c hb hy => g_nftBody_tx_s hash _ t.s y y' c hb hy) _ _ _ _ _ _ hrun rfl
   cases st0 with
   | outOfFuel => cases hrest
   | interrupted =>
@@ -503,7 +503,7 @@ theorem nftSubstep_claimed {hash : List Nat → List Nat} {t t' : Tx} {rng rng' 
 
 theorem selectNft_claimed {hash : List Nat → List Nat} {t t' : Tx} {e : Env}
     (h : selectNft hash t e = .ok t') : t'.s.claimed = t.s.claimed := by
-  obtain ⟨_, _, _, t0, t1, rng, rng', st, h0, hsub, hfin⟩ := selectNft_inv h
+  obtain ⟨_, _, _, t0, t1, rng, rng', st, h0, hsub, hfin⟩ := g_selectNft_inv h
   have h1 := nftSubstep_claimed hsub
   rw [h0] at h1
   rcases hfin with ⟨_, hs, _⟩ | ⟨_, hs, _⟩ <;> rw [hs] <;> exact h1
@@ -525,7 +525,7 @@ theorem guaranteedSubstep_claimed {hash : List Nat → List Nat} {t t' : Tx} {g 
     obtain ⟨y, b2, st1, hrun, hrest⟩ := hrest
     have hy := runWhile_keeps (fun z : LSt => z.tx.s.claimed = t.s.claimed) _
       (fun z z' c hb hz => by
-        have := leftoverBody_tx_s hash _ _ _ z.tx.s z z' c hb rfl
+        have := g_leftoverBody_tx_s hash _ _ _ z.tx.s z z' c hb rfl
         show z'.tx.s.claimed = _
         rw [this]; exact hz) _ _ _ _ _ _ hrun rfl
     cases st1 with
@@ -583,7 +583,7 @@ theorem KeepsC_bind_nft (c0 : Nat → Bool) (hash : List Nat → List Nat) (t0 :
 
 theorem freshRng_claimed (t : Tx) (r : Rng) (t' : Tx) (h : t.freshRng = (r, t')) :
     t'.s.claimed = t.s.claimed := by
-  have := Tx.freshRng_s t
+  have := Tx.g_freshRng_s t
   rw [h] at this
   exact congrArg State.claimed this
 
